@@ -146,6 +146,7 @@ type vfCase struct {
 	tmu   sync.Mutex
 	trace []string
 	Replaying bool
+	OnlyPrefix string // when set, only violations whose signature starts with it are recorded
 }
 
 func vfEnvInt(name string, def int) int {
@@ -386,6 +387,12 @@ func (c *vfCase) Inconclusive(reason string) {
 // Violation records a violation. The signature names the cause, it is what
 // /verif/known_findings.json is matched against.
 func (c *vfCase) Violation(sig, summary string, detail any) {
+	if c.OnlyPrefix != "" && !strings.HasPrefix(sig, c.OnlyPrefix) {
+		// a harness borrowed from another property's check: its own verdicts are not this property's
+		c.Logf("(not judged here) %s: %s", sig, summary)
+		c.Count("borrowed-harness-verdicts-not-judged")
+		return
+	}
 	tr := c.Trace()
 	c.run.mu.Lock()
 	defer c.run.mu.Unlock()
